@@ -1,5 +1,5 @@
 // auto-generated: "lalrpop 0.23.1"
-// sha3: 20e9465cef0af310680c7d79b9ee89323624b31017819d0e2b69f13674a01ef2
+// sha3: bc3728f96064ee90e38b458c5600784148d68611af2d8d948e065d9460efd9cb
 use crate::rt::*;
 #[allow(unused_extern_crates)]
 extern crate lalrpop_util as __lalrpop_util;
@@ -10,7 +10,7 @@ extern crate alloc;
 
 #[rustfmt::skip]
 #[allow(explicit_outlives_requirements, non_snake_case, non_camel_case_types, unused_mut, unused_variables, unused_imports, unused_parens, clippy::needless_lifetimes, clippy::type_complexity, clippy::needless_return, clippy::too_many_arguments, clippy::match_single_binding, clippy::clone_on_copy, clippy::unit_arg)]
-mod __parse__S {
+mod __parse__E {
 
     use crate::rt::*;
     #[allow(unused_extern_crates)]
@@ -29,52 +29,36 @@ mod __parse__S {
     }
     const __ACTION: &[i8] = &[
         // State 0
-        9, 10, 0, 2,
+        0, 0, 2, 0, 7,
         // State 1
-        9, 10, 0, 0,
+        0, 0, 2, 0, 7,
         // State 2
-        9, 10, 0, 0,
+        0, 0, 2, 0, 7,
         // State 3
-        9, 10, 0, 0,
+        0, 0, 2, 0, 7,
         // State 4
-        9, 10, 0, 0,
+        3, 0, 0, 0, 0,
         // State 5
-        9, 10, 0, 0,
+        -4, 8, 0, -4, 0,
         // State 6
-        0, 0, 0, 0,
+        -10, -10, 0, -10, 0,
         // State 7
-        0, 0, 3, 0,
+        0, 0, 4, 0, 11,
         // State 8
-        0, 11, 0, 0,
+        3, 0, 0, 12, 0,
         // State 9
-        12, 13, 0, 0,
+        -3, 8, 0, -3, 0,
         // State 10
-        15, 16, 0, 0,
+        -8, -8, 0, -8, 0,
         // State 11
-        0, 17, 0, 0,
+        -9, -9, 0, -9, 0,
         // State 12
-        -9, -9, -9, -9,
+        3, 0, 0, 14, 0,
         // State 13
-        0, 0, 5, 0,
-        // State 14
-        0, 19, 0, 0,
-        // State 15
-        -7, -7, -7, -7,
-        // State 16
-        -8, -8, -8, -8,
-        // State 17
-        0, 0, 6, 0,
-        // State 18
-        -6, -6, -6, -6,
-        // State 19
-        0, 0, 0, 0,
-        // State 20
-        0, 0, 0, 22,
-        // State 21
-        0, 0, 0, 0,
+        -7, -7, 0, -7, 0,
     ];
     fn __action(state: i8, integer: usize) -> i8 {
-        __ACTION[(state as usize) * 4 + integer]
+        __ACTION[(state as usize) * 5 + integer]
     }
     const __EOF_ACTION: &[i8] = &[
         // State 0
@@ -86,62 +70,47 @@ mod __parse__S {
         // State 3
         0,
         // State 4
-        0,
+        -11,
         // State 5
-        0,
+        -4,
         // State 6
-        -12,
+        -10,
         // State 7
         0,
         // State 8
         0,
         // State 9
-        0,
-        // State 10
-        0,
-        // State 11
-        0,
-        // State 12
-        -9,
-        // State 13
-        0,
-        // State 14
-        0,
-        // State 15
-        -7,
-        // State 16
-        -8,
-        // State 17
-        0,
-        // State 18
-        -6,
-        // State 19
-        -4,
-        // State 20
-        0,
-        // State 21
         -3,
+        // State 10
+        -8,
+        // State 11
+        -9,
+        // State 12
+        0,
+        // State 13
+        -7,
     ];
     fn __goto(state: i8, nt: usize) -> i8 {
         match nt {
-            2 => 6,
+            2 => match state {
+                1 => 8,
+                3 => 12,
+                _ => 4,
+            },
             4 => match state {
-                0 => 7,
-                1 => 13,
-                3 => 17,
-                4 => 19,
-                5 => 20,
-                _ => 3,
+                2 => 9,
+                _ => 5,
             },
             _ => 0,
         }
     }
     #[allow(clippy::needless_raw_string_hashes)]
     const __TERMINAL: &[&str] = &[
-        r###""a""###,
-        r###""b""###,
-        r###""c""###,
-        r###""d""###,
+        r###""+""###,
+        r###""*""###,
+        r###""(""###,
+        r###"")""###,
+        r###""x""###,
     ];
     fn __expected_tokens(__state: i8) -> alloc::vec::Vec<alloc::string::String> {
         __TERMINAL.iter().enumerate().filter_map(|(index, terminal)| {
@@ -208,7 +177,7 @@ mod __parse__S {
 
         #[inline]
         fn error_action(&self, state: i8) -> i8 {
-            __action(state, 4 - 1)
+            __action(state, 5 - 1)
         }
 
         #[inline]
@@ -278,6 +247,7 @@ mod __parse__S {
             Tok('b', _, _, _) if true => Some(1),
             Tok('c', _, _, _) if true => Some(2),
             Tok('d', _, _, _) if true => Some(3),
+            Tok('e', _, _, _) if true => Some(4),
             _ => None,
         }
     }
@@ -289,7 +259,7 @@ mod __parse__S {
     ) -> __Symbol<>
     {
         #[allow(clippy::manual_range_patterns)]match __token_index {
-            0 | 1 | 2 | 3 => __Symbol::Variant0(__token),
+            0 | 1 | 2 | 3 | 4 => __Symbol::Variant0(__token),
             _ => unreachable!(),
         }
     }
@@ -314,13 +284,13 @@ mod __parse__S {
             }
             2 => {
                 __state_machine::SimulatedReduce::Reduce {
-                    states_to_pop: 7,
+                    states_to_pop: 3,
                     nonterminal_produced: 2,
                 }
             }
             3 => {
                 __state_machine::SimulatedReduce::Reduce {
-                    states_to_pop: 4,
+                    states_to_pop: 1,
                     nonterminal_produced: 2,
                 }
             }
@@ -332,13 +302,13 @@ mod __parse__S {
             }
             5 => {
                 __state_machine::SimulatedReduce::Reduce {
-                    states_to_pop: 4,
-                    nonterminal_produced: 4,
+                    states_to_pop: 1,
+                    nonterminal_produced: 3,
                 }
             }
             6 => {
                 __state_machine::SimulatedReduce::Reduce {
-                    states_to_pop: 3,
+                    states_to_pop: 5,
                     nonterminal_produced: 4,
                 }
             }
@@ -350,34 +320,28 @@ mod __parse__S {
             }
             8 => {
                 __state_machine::SimulatedReduce::Reduce {
-                    states_to_pop: 2,
+                    states_to_pop: 3,
                     nonterminal_produced: 4,
                 }
             }
             9 => {
                 __state_machine::SimulatedReduce::Reduce {
-                    states_to_pop: 2,
-                    nonterminal_produced: 5,
-                }
-            }
-            10 => {
-                __state_machine::SimulatedReduce::Reduce {
                     states_to_pop: 1,
-                    nonterminal_produced: 5,
+                    nonterminal_produced: 4,
                 }
             }
-            11 => __state_machine::SimulatedReduce::Accept,
+            10 => __state_machine::SimulatedReduce::Accept,
             _ => panic!("invalid reduction index {__reduce_index}")
         }
     }
-    pub struct SParser {
+    pub struct EParser {
         _priv: (),
     }
 
-    impl Default for SParser { fn default() -> Self { Self::new() } }
-    impl SParser {
-        pub fn new() -> SParser {
-            SParser {
+    impl Default for EParser { fn default() -> Self { Self::new() } }
+    impl EParser {
+        pub fn new() -> EParser {
+            EParser {
                 _priv: (),
             }
         }
@@ -474,10 +438,7 @@ mod __parse__S {
                 __reduce9(__lookahead_start, __symbols, core::marker::PhantomData::<()>)
             }
             10 => {
-                __reduce10(__lookahead_start, __symbols, core::marker::PhantomData::<()>)
-            }
-            11 => {
-                // __S = S => ActionFn(0);
+                // __E = E => ActionFn(0);
                 let __sym0 = __pop_Variant2(__symbols);
                 let __start = __sym0.0.clone();
                 let __end = __sym0.2.clone();
@@ -562,20 +523,16 @@ mod __parse__S {
         _: core::marker::PhantomData<()>,
     ) -> (usize, usize)
     {
-        // S = Y, "c", Y, Y, "c", Y, "d" => ActionFn(21);
-        assert!(__symbols.len() >= 7);
-        let __sym6 = __pop_Variant0(__symbols);
-        let __sym5 = __pop_Variant2(__symbols);
-        let __sym4 = __pop_Variant0(__symbols);
-        let __sym3 = __pop_Variant2(__symbols);
+        // E = E, "+", T => ActionFn(15);
+        assert!(__symbols.len() >= 3);
         let __sym2 = __pop_Variant2(__symbols);
         let __sym1 = __pop_Variant0(__symbols);
         let __sym0 = __pop_Variant2(__symbols);
         let __start = __sym0.0.clone();
-        let __end = __sym6.2.clone();
-        let __nt = super::__action21::<>(__sym0, __sym1, __sym2, __sym3, __sym4, __sym5, __sym6);
+        let __end = __sym2.2.clone();
+        let __nt = super::__action15::<>(__sym0, __sym1, __sym2);
         __symbols.push((__start, __Symbol::Variant2(__nt), __end));
-        (7, 2)
+        (3, 2)
     }
     fn __reduce3<
     >(
@@ -584,17 +541,13 @@ mod __parse__S {
         _: core::marker::PhantomData<()>,
     ) -> (usize, usize)
     {
-        // S = "d", Y, "c", Y => ActionFn(22);
-        assert!(__symbols.len() >= 4);
-        let __sym3 = __pop_Variant2(__symbols);
-        let __sym2 = __pop_Variant0(__symbols);
-        let __sym1 = __pop_Variant2(__symbols);
-        let __sym0 = __pop_Variant0(__symbols);
+        // E = T => ActionFn(16);
+        let __sym0 = __pop_Variant2(__symbols);
         let __start = __sym0.0.clone();
-        let __end = __sym3.2.clone();
-        let __nt = super::__action22::<>(__sym0, __sym1, __sym2, __sym3);
+        let __end = __sym0.2.clone();
+        let __nt = super::__action16::<>(__sym0);
         __symbols.push((__start, __Symbol::Variant2(__nt), __end));
-        (4, 2)
+        (1, 2)
     }
     fn __reduce4<
     >(
@@ -603,11 +556,11 @@ mod __parse__S {
         _: core::marker::PhantomData<()>,
     ) -> (usize, usize)
     {
-        // X = Y, "c", Y => ActionFn(17);
+        // F = "(", E, ")" => ActionFn(17);
         assert!(__symbols.len() >= 3);
-        let __sym2 = __pop_Variant2(__symbols);
-        let __sym1 = __pop_Variant0(__symbols);
-        let __sym0 = __pop_Variant2(__symbols);
+        let __sym2 = __pop_Variant0(__symbols);
+        let __sym1 = __pop_Variant2(__symbols);
+        let __sym0 = __pop_Variant0(__symbols);
         let __start = __sym0.0.clone();
         let __end = __sym2.2.clone();
         let __nt = super::__action17::<>(__sym0, __sym1, __sym2);
@@ -621,17 +574,13 @@ mod __parse__S {
         _: core::marker::PhantomData<()>,
     ) -> (usize, usize)
     {
-        // Y = "a", "b", "a", "b" => ActionFn(23);
-        assert!(__symbols.len() >= 4);
-        let __sym3 = __pop_Variant0(__symbols);
-        let __sym2 = __pop_Variant0(__symbols);
-        let __sym1 = __pop_Variant0(__symbols);
+        // F = "x" => ActionFn(18);
         let __sym0 = __pop_Variant0(__symbols);
         let __start = __sym0.0.clone();
-        let __end = __sym3.2.clone();
-        let __nt = super::__action23::<>(__sym0, __sym1, __sym2, __sym3);
+        let __end = __sym0.2.clone();
+        let __nt = super::__action18::<>(__sym0);
         __symbols.push((__start, __Symbol::Variant2(__nt), __end));
-        (4, 4)
+        (1, 3)
     }
     fn __reduce6<
     >(
@@ -640,16 +589,18 @@ mod __parse__S {
         _: core::marker::PhantomData<()>,
     ) -> (usize, usize)
     {
-        // Y = "a", "b", "b" => ActionFn(24);
-        assert!(__symbols.len() >= 3);
+        // T = T, "*", "(", E, ")" => ActionFn(21);
+        assert!(__symbols.len() >= 5);
+        let __sym4 = __pop_Variant0(__symbols);
+        let __sym3 = __pop_Variant2(__symbols);
         let __sym2 = __pop_Variant0(__symbols);
         let __sym1 = __pop_Variant0(__symbols);
-        let __sym0 = __pop_Variant0(__symbols);
+        let __sym0 = __pop_Variant2(__symbols);
         let __start = __sym0.0.clone();
-        let __end = __sym2.2.clone();
-        let __nt = super::__action24::<>(__sym0, __sym1, __sym2);
+        let __end = __sym4.2.clone();
+        let __nt = super::__action21::<>(__sym0, __sym1, __sym2, __sym3, __sym4);
         __symbols.push((__start, __Symbol::Variant2(__nt), __end));
-        (3, 4)
+        (5, 4)
     }
     fn __reduce7<
     >(
@@ -658,14 +609,14 @@ mod __parse__S {
         _: core::marker::PhantomData<()>,
     ) -> (usize, usize)
     {
-        // Y = "b", "a", "b" => ActionFn(25);
+        // T = T, "*", "x" => ActionFn(22);
         assert!(__symbols.len() >= 3);
         let __sym2 = __pop_Variant0(__symbols);
         let __sym1 = __pop_Variant0(__symbols);
-        let __sym0 = __pop_Variant0(__symbols);
+        let __sym0 = __pop_Variant2(__symbols);
         let __start = __sym0.0.clone();
         let __end = __sym2.2.clone();
-        let __nt = super::__action25::<>(__sym0, __sym1, __sym2);
+        let __nt = super::__action22::<>(__sym0, __sym1, __sym2);
         __symbols.push((__start, __Symbol::Variant2(__nt), __end));
         (3, 4)
     }
@@ -676,15 +627,16 @@ mod __parse__S {
         _: core::marker::PhantomData<()>,
     ) -> (usize, usize)
     {
-        // Y = "b", "b" => ActionFn(26);
-        assert!(__symbols.len() >= 2);
-        let __sym1 = __pop_Variant0(__symbols);
+        // T = "(", E, ")" => ActionFn(23);
+        assert!(__symbols.len() >= 3);
+        let __sym2 = __pop_Variant0(__symbols);
+        let __sym1 = __pop_Variant2(__symbols);
         let __sym0 = __pop_Variant0(__symbols);
         let __start = __sym0.0.clone();
-        let __end = __sym1.2.clone();
-        let __nt = super::__action26::<>(__sym0, __sym1);
+        let __end = __sym2.2.clone();
+        let __nt = super::__action23::<>(__sym0, __sym1, __sym2);
         __symbols.push((__start, __Symbol::Variant2(__nt), __end));
-        (2, 4)
+        (3, 4)
     }
     fn __reduce9<
     >(
@@ -693,34 +645,17 @@ mod __parse__S {
         _: core::marker::PhantomData<()>,
     ) -> (usize, usize)
     {
-        // Z = "a", "b" => ActionFn(19);
-        assert!(__symbols.len() >= 2);
-        let __sym1 = __pop_Variant0(__symbols);
-        let __sym0 = __pop_Variant0(__symbols);
-        let __start = __sym0.0.clone();
-        let __end = __sym1.2.clone();
-        let __nt = super::__action19::<>(__sym0, __sym1);
-        __symbols.push((__start, __Symbol::Variant2(__nt), __end));
-        (2, 5)
-    }
-    fn __reduce10<
-    >(
-        __lookahead_start: Option<&i64>,
-        __symbols: &mut alloc::vec::Vec<(i64,__Symbol<>,i64)>,
-        _: core::marker::PhantomData<()>,
-    ) -> (usize, usize)
-    {
-        // Z = "b" => ActionFn(20);
+        // T = "x" => ActionFn(24);
         let __sym0 = __pop_Variant0(__symbols);
         let __start = __sym0.0.clone();
         let __end = __sym0.2.clone();
-        let __nt = super::__action20::<>(__sym0);
+        let __nt = super::__action24::<>(__sym0);
         __symbols.push((__start, __Symbol::Variant2(__nt), __end));
-        (1, 5)
+        (1, 4)
     }
 }
 #[allow(unused_imports)]
-pub use self::__parse__S::SParser;
+pub use self::__parse__E::EParser;
 
 #[allow(clippy::too_many_arguments, clippy::needless_lifetimes, clippy::just_underscores_and_digits, clippy::extra_unused_type_parameters)]
 fn __action0<
@@ -736,24 +671,23 @@ fn __action1<
 >(
     (_, l, _): (i64, i64, i64),
     (_, c0, _): (i64, Tree, i64),
-    (_, c1, _): (i64, Tree, i64),
-    (_, c2, _): (i64, Tok, i64),
+    (_, c1, _): (i64, Tok, i64),
+    (_, c2, _): (i64, Tree, i64),
     (_, r, _): (i64, i64, i64),
 ) -> Tree
 {
-    node("S#0", l, r, vec![Tree::from(c0), Tree::from(c1), Tree::from(c2)])
+    node("E#0", l, r, vec![Tree::from(c0), Tree::from(c1), Tree::from(c2)])
 }
 
 #[allow(clippy::too_many_arguments, clippy::needless_lifetimes, clippy::just_underscores_and_digits, clippy::extra_unused_type_parameters)]
 fn __action2<
 >(
     (_, l, _): (i64, i64, i64),
-    (_, c0, _): (i64, Tok, i64),
-    (_, c1, _): (i64, Tree, i64),
+    (_, c0, _): (i64, Tree, i64),
     (_, r, _): (i64, i64, i64),
 ) -> Tree
 {
-    node("S#1", l, r, vec![Tree::from(c0), Tree::from(c1)])
+    node("E#1", l, r, vec![Tree::from(c0)])
 }
 
 #[allow(clippy::too_many_arguments, clippy::needless_lifetimes, clippy::just_underscores_and_digits, clippy::extra_unused_type_parameters)]
@@ -766,7 +700,7 @@ fn __action3<
     (_, r, _): (i64, i64, i64),
 ) -> Tree
 {
-    node("X#0", l, r, vec![Tree::from(c0), Tree::from(c1), Tree::from(c2)])
+    node("T#0", l, r, vec![Tree::from(c0), Tree::from(c1), Tree::from(c2)])
 }
 
 #[allow(clippy::too_many_arguments, clippy::needless_lifetimes, clippy::just_underscores_and_digits, clippy::extra_unused_type_parameters)]
@@ -774,11 +708,10 @@ fn __action4<
 >(
     (_, l, _): (i64, i64, i64),
     (_, c0, _): (i64, Tree, i64),
-    (_, c1, _): (i64, Tree, i64),
     (_, r, _): (i64, i64, i64),
 ) -> Tree
 {
-    node("Y#0", l, r, vec![Tree::from(c0), Tree::from(c1)])
+    node("T#1", l, r, vec![Tree::from(c0)])
 }
 
 #[allow(clippy::too_many_arguments, clippy::needless_lifetimes, clippy::just_underscores_and_digits, clippy::extra_unused_type_parameters)]
@@ -786,11 +719,12 @@ fn __action5<
 >(
     (_, l, _): (i64, i64, i64),
     (_, c0, _): (i64, Tok, i64),
-    (_, c1, _): (i64, Tok, i64),
+    (_, c1, _): (i64, Tree, i64),
+    (_, c2, _): (i64, Tok, i64),
     (_, r, _): (i64, i64, i64),
 ) -> Tree
 {
-    node("Z#0", l, r, vec![Tree::from(c0), Tree::from(c1)])
+    node("F#0", l, r, vec![Tree::from(c0), Tree::from(c1), Tree::from(c2)])
 }
 
 #[allow(clippy::too_many_arguments, clippy::needless_lifetimes, clippy::just_underscores_and_digits, clippy::extra_unused_type_parameters)]
@@ -801,7 +735,7 @@ fn __action6<
     (_, r, _): (i64, i64, i64),
 ) -> Tree
 {
-    node("Z#1", l, r, vec![Tree::from(c0)])
+    node("F#1", l, r, vec![Tree::from(c0)])
 }
 
 #[allow(clippy::needless_lifetimes, clippy::clone_on_copy)]
@@ -829,8 +763,8 @@ fn __action8<
 fn __action9<
 >(
     __0: (i64, Tree, i64),
-    __1: (i64, Tree, i64),
-    __2: (i64, Tok, i64),
+    __1: (i64, Tok, i64),
+    __2: (i64, Tree, i64),
     __3: (i64, i64, i64),
 ) -> Tree
 {
@@ -854,9 +788,8 @@ fn __action9<
     clippy::just_underscores_and_digits, clippy::clone_on_copy, clippy::unit_arg)]
 fn __action10<
 >(
-    __0: (i64, Tok, i64),
-    __1: (i64, Tree, i64),
-    __2: (i64, i64, i64),
+    __0: (i64, Tree, i64),
+    __1: (i64, i64, i64),
 ) -> Tree
 {
     let __start0 = __0.0.clone();
@@ -870,13 +803,60 @@ fn __action10<
         __temp0,
         __0,
         __1,
-        __2,
     )
 }
 
 #[allow(clippy::too_many_arguments, clippy::needless_lifetimes,
     clippy::just_underscores_and_digits, clippy::clone_on_copy, clippy::unit_arg)]
 fn __action11<
+>(
+    __0: (i64, Tok, i64),
+    __1: (i64, Tree, i64),
+    __2: (i64, Tok, i64),
+    __3: (i64, i64, i64),
+) -> Tree
+{
+    let __start0 = __0.0.clone();
+    let __end0 = __0.0.clone();
+    let __temp0 = __action8(
+        &__start0,
+        &__end0,
+    );
+    let __temp0 = (__start0, __temp0, __end0);
+    __action5(
+        __temp0,
+        __0,
+        __1,
+        __2,
+        __3,
+    )
+}
+
+#[allow(clippy::too_many_arguments, clippy::needless_lifetimes,
+    clippy::just_underscores_and_digits, clippy::clone_on_copy, clippy::unit_arg)]
+fn __action12<
+>(
+    __0: (i64, Tok, i64),
+    __1: (i64, i64, i64),
+) -> Tree
+{
+    let __start0 = __0.0.clone();
+    let __end0 = __0.0.clone();
+    let __temp0 = __action8(
+        &__start0,
+        &__end0,
+    );
+    let __temp0 = (__start0, __temp0, __end0);
+    __action6(
+        __temp0,
+        __0,
+        __1,
+    )
+}
+
+#[allow(clippy::too_many_arguments, clippy::needless_lifetimes,
+    clippy::just_underscores_and_digits, clippy::clone_on_copy, clippy::unit_arg)]
+fn __action13<
 >(
     __0: (i64, Tree, i64),
     __1: (i64, Tok, i64),
@@ -902,11 +882,10 @@ fn __action11<
 
 #[allow(clippy::too_many_arguments, clippy::needless_lifetimes,
     clippy::just_underscores_and_digits, clippy::clone_on_copy, clippy::unit_arg)]
-fn __action12<
+fn __action14<
 >(
     __0: (i64, Tree, i64),
-    __1: (i64, Tree, i64),
-    __2: (i64, i64, i64),
+    __1: (i64, i64, i64),
 ) -> Tree
 {
     let __start0 = __0.0.clone();
@@ -920,53 +899,6 @@ fn __action12<
         __temp0,
         __0,
         __1,
-        __2,
-    )
-}
-
-#[allow(clippy::too_many_arguments, clippy::needless_lifetimes,
-    clippy::just_underscores_and_digits, clippy::clone_on_copy, clippy::unit_arg)]
-fn __action13<
->(
-    __0: (i64, Tok, i64),
-    __1: (i64, Tok, i64),
-    __2: (i64, i64, i64),
-) -> Tree
-{
-    let __start0 = __0.0.clone();
-    let __end0 = __0.0.clone();
-    let __temp0 = __action8(
-        &__start0,
-        &__end0,
-    );
-    let __temp0 = (__start0, __temp0, __end0);
-    __action5(
-        __temp0,
-        __0,
-        __1,
-        __2,
-    )
-}
-
-#[allow(clippy::too_many_arguments, clippy::needless_lifetimes,
-    clippy::just_underscores_and_digits, clippy::clone_on_copy, clippy::unit_arg)]
-fn __action14<
->(
-    __0: (i64, Tok, i64),
-    __1: (i64, i64, i64),
-) -> Tree
-{
-    let __start0 = __0.0.clone();
-    let __end0 = __0.0.clone();
-    let __temp0 = __action8(
-        &__start0,
-        &__end0,
-    );
-    let __temp0 = (__start0, __temp0, __end0);
-    __action6(
-        __temp0,
-        __0,
-        __1,
     )
 }
 
@@ -975,8 +907,8 @@ fn __action14<
 fn __action15<
 >(
     __0: (i64, Tree, i64),
-    __1: (i64, Tree, i64),
-    __2: (i64, Tok, i64),
+    __1: (i64, Tok, i64),
+    __2: (i64, Tree, i64),
 ) -> Tree
 {
     let __start0 = __2.2.clone();
@@ -998,12 +930,11 @@ fn __action15<
     clippy::just_underscores_and_digits, clippy::clone_on_copy, clippy::unit_arg)]
 fn __action16<
 >(
-    __0: (i64, Tok, i64),
-    __1: (i64, Tree, i64),
+    __0: (i64, Tree, i64),
 ) -> Tree
 {
-    let __start0 = __1.2.clone();
-    let __end0 = __1.2.clone();
+    let __start0 = __0.2.clone();
+    let __end0 = __0.2.clone();
     let __temp0 = __action7(
         &__start0,
         &__end0,
@@ -1011,7 +942,6 @@ fn __action16<
     let __temp0 = (__start0, __temp0, __end0);
     __action10(
         __0,
-        __1,
         __temp0,
     )
 }
@@ -1020,9 +950,9 @@ fn __action16<
     clippy::just_underscores_and_digits, clippy::clone_on_copy, clippy::unit_arg)]
 fn __action17<
 >(
-    __0: (i64, Tree, i64),
-    __1: (i64, Tok, i64),
-    __2: (i64, Tree, i64),
+    __0: (i64, Tok, i64),
+    __1: (i64, Tree, i64),
+    __2: (i64, Tok, i64),
 ) -> Tree
 {
     let __start0 = __2.2.clone();
@@ -1044,12 +974,11 @@ fn __action17<
     clippy::just_underscores_and_digits, clippy::clone_on_copy, clippy::unit_arg)]
 fn __action18<
 >(
-    __0: (i64, Tree, i64),
-    __1: (i64, Tree, i64),
+    __0: (i64, Tok, i64),
 ) -> Tree
 {
-    let __start0 = __1.2.clone();
-    let __end0 = __1.2.clone();
+    let __start0 = __0.2.clone();
+    let __end0 = __0.2.clone();
     let __temp0 = __action7(
         &__start0,
         &__end0,
@@ -1057,7 +986,6 @@ fn __action18<
     let __temp0 = (__start0, __temp0, __end0);
     __action12(
         __0,
-        __1,
         __temp0,
     )
 }
@@ -1066,12 +994,13 @@ fn __action18<
     clippy::just_underscores_and_digits, clippy::clone_on_copy, clippy::unit_arg)]
 fn __action19<
 >(
-    __0: (i64, Tok, i64),
+    __0: (i64, Tree, i64),
     __1: (i64, Tok, i64),
+    __2: (i64, Tree, i64),
 ) -> Tree
 {
-    let __start0 = __1.2.clone();
-    let __end0 = __1.2.clone();
+    let __start0 = __2.2.clone();
+    let __end0 = __2.2.clone();
     let __temp0 = __action7(
         &__start0,
         &__end0,
@@ -1080,6 +1009,7 @@ fn __action19<
     __action13(
         __0,
         __1,
+        __2,
         __temp0,
     )
 }
@@ -1088,7 +1018,7 @@ fn __action19<
     clippy::just_underscores_and_digits, clippy::clone_on_copy, clippy::unit_arg)]
 fn __action20<
 >(
-    __0: (i64, Tok, i64),
+    __0: (i64, Tree, i64),
 ) -> Tree
 {
     let __start0 = __0.2.clone();
@@ -1110,33 +1040,23 @@ fn __action21<
 >(
     __0: (i64, Tree, i64),
     __1: (i64, Tok, i64),
-    __2: (i64, Tree, i64),
+    __2: (i64, Tok, i64),
     __3: (i64, Tree, i64),
     __4: (i64, Tok, i64),
-    __5: (i64, Tree, i64),
-    __6: (i64, Tok, i64),
 ) -> Tree
 {
-    let __start0 = __0.0.clone();
-    let __end0 = __2.2.clone();
-    let __start1 = __3.0.clone();
-    let __end1 = __5.2.clone();
+    let __start0 = __2.0.clone();
+    let __end0 = __4.2.clone();
     let __temp0 = __action17(
-        __0,
-        __1,
         __2,
-    );
-    let __temp0 = (__start0, __temp0, __end0);
-    let __temp1 = __action17(
         __3,
         __4,
-        __5,
     );
-    let __temp1 = (__start1, __temp1, __end1);
-    __action15(
+    let __temp0 = (__start0, __temp0, __end0);
+    __action19(
+        __0,
+        __1,
         __temp0,
-        __temp1,
-        __6,
     )
 }
 
@@ -1144,22 +1064,20 @@ fn __action21<
     clippy::just_underscores_and_digits, clippy::clone_on_copy, clippy::unit_arg)]
 fn __action22<
 >(
-    __0: (i64, Tok, i64),
-    __1: (i64, Tree, i64),
+    __0: (i64, Tree, i64),
+    __1: (i64, Tok, i64),
     __2: (i64, Tok, i64),
-    __3: (i64, Tree, i64),
 ) -> Tree
 {
-    let __start0 = __1.0.clone();
-    let __end0 = __3.2.clone();
-    let __temp0 = __action17(
-        __1,
+    let __start0 = __2.0.clone();
+    let __end0 = __2.2.clone();
+    let __temp0 = __action18(
         __2,
-        __3,
     );
     let __temp0 = (__start0, __temp0, __end0);
-    __action16(
+    __action19(
         __0,
+        __1,
         __temp0,
     )
 }
@@ -1169,28 +1087,20 @@ fn __action22<
 fn __action23<
 >(
     __0: (i64, Tok, i64),
-    __1: (i64, Tok, i64),
+    __1: (i64, Tree, i64),
     __2: (i64, Tok, i64),
-    __3: (i64, Tok, i64),
 ) -> Tree
 {
     let __start0 = __0.0.clone();
-    let __end0 = __1.2.clone();
-    let __start1 = __2.0.clone();
-    let __end1 = __3.2.clone();
-    let __temp0 = __action19(
+    let __end0 = __2.2.clone();
+    let __temp0 = __action17(
         __0,
         __1,
+        __2,
     );
     let __temp0 = (__start0, __temp0, __end0);
-    let __temp1 = __action19(
-        __2,
-        __3,
-    );
-    let __temp1 = (__start1, __temp1, __end1);
-    __action18(
+    __action20(
         __temp0,
-        __temp1,
     )
 }
 
@@ -1199,80 +1109,16 @@ fn __action23<
 fn __action24<
 >(
     __0: (i64, Tok, i64),
-    __1: (i64, Tok, i64),
-    __2: (i64, Tok, i64),
-) -> Tree
-{
-    let __start0 = __0.0.clone();
-    let __end0 = __1.2.clone();
-    let __start1 = __2.0.clone();
-    let __end1 = __2.2.clone();
-    let __temp0 = __action19(
-        __0,
-        __1,
-    );
-    let __temp0 = (__start0, __temp0, __end0);
-    let __temp1 = __action20(
-        __2,
-    );
-    let __temp1 = (__start1, __temp1, __end1);
-    __action18(
-        __temp0,
-        __temp1,
-    )
-}
-
-#[allow(clippy::too_many_arguments, clippy::needless_lifetimes,
-    clippy::just_underscores_and_digits, clippy::clone_on_copy, clippy::unit_arg)]
-fn __action25<
->(
-    __0: (i64, Tok, i64),
-    __1: (i64, Tok, i64),
-    __2: (i64, Tok, i64),
 ) -> Tree
 {
     let __start0 = __0.0.clone();
     let __end0 = __0.2.clone();
-    let __start1 = __1.0.clone();
-    let __end1 = __2.2.clone();
-    let __temp0 = __action20(
+    let __temp0 = __action18(
         __0,
     );
     let __temp0 = (__start0, __temp0, __end0);
-    let __temp1 = __action19(
-        __1,
-        __2,
-    );
-    let __temp1 = (__start1, __temp1, __end1);
-    __action18(
+    __action20(
         __temp0,
-        __temp1,
-    )
-}
-
-#[allow(clippy::too_many_arguments, clippy::needless_lifetimes,
-    clippy::just_underscores_and_digits, clippy::clone_on_copy, clippy::unit_arg)]
-fn __action26<
->(
-    __0: (i64, Tok, i64),
-    __1: (i64, Tok, i64),
-) -> Tree
-{
-    let __start0 = __0.0.clone();
-    let __end0 = __0.2.clone();
-    let __start1 = __1.0.clone();
-    let __end1 = __1.2.clone();
-    let __temp0 = __action20(
-        __0,
-    );
-    let __temp0 = (__start0, __temp0, __end0);
-    let __temp1 = __action20(
-        __1,
-    );
-    let __temp1 = (__start1, __temp1, __end1);
-    __action18(
-        __temp0,
-        __temp1,
     )
 }
 
